@@ -18,7 +18,7 @@ def chk(i, cat, text, note, tech, ref):
     CHECKS[i] = (cat, text, note, tech, ref)
 
 chk("C08", "exploration",
-    "Seeded search over histories of aborted/accepted parses, API range failures, context free/re-init and two interleaved clients, followed by probe parses; every history is executed as is, again with all process-global library state (scanner image, cfg_yylval, errno) reset before each API call, per-client solo, and each probe alone in a fresh image; any difference in return code, diagnostics or canonical dump is a violation. Sampling, not proof.",
+    "Seeded search over histories of aborted/accepted parses, API range failures, context free/re-init and two interleaved clients, followed by probe parses (also rejected and accepted probes into a re-used context: errors inside sections an earlier parse opened, deprecated / dropped options assigned again); every history is executed as is, again with all process-global library state (scanner image, cfg_yylval, errno) reset before each API call, per-client solo, and each probe alone in a fresh image; any difference in return code, diagnostics or canonical dump is a violation. Sampling, not proof.",
     "Trusts the executor's canonical dump (public getters only) and the process-image restart (validated by the determinism self-test and by fresh-process replay of every violation). Event texts and probes are a fixed catalogue.",
     "deterministic simulation: seeded history/schedule search with differential oracles (O-scrub, O-fresh, O-solo)", "7/C08")
 
@@ -38,27 +38,27 @@ chk("C02", "exploration",
     "deterministic simulation: seeded storage-fault injection on input sources over all delivery routes, with death/stdout/budget monitors and recovery probe", "7/C02")
 
 chk("C13", "exploration",
-    "Seeded search: an accepted rendered text is split at item boundaries into a random tree of include files (depth 0..9; absolute, search-path-relative and tilde names; buffer/stream/file delivery) and must give exactly the dump of the flat text obtained by writing every included file in place (O-flat); a wrong token appended to the includer must be reported with the includer's own file name and line (position restored); every failing target (missing, directory, unreadable, one level too deep, self-inclusion, error inside the included file, empty name) must be a reported parse error with no exit/abort, an empty include stack and all streams closed afterwards, followed by a good include that must work; histories of 1..12 failing includes are followed by the include tree in a new context compared with a fresh process image.",
+    "Seeded search: an accepted rendered text is split at item boundaries into a random tree of include files (depth 0..9; absolute, search-path-relative and tilde names; a third of the trees reach some files through symbolic links; buffer/stream/file delivery) and must give exactly the dump of the flat text obtained by writing every included file in place (O-flat); a wrong token appended to the includer must be reported with the includer's own file name and line (position restored); every failing target (missing, directory, unreadable, one level too deep, self-inclusion, error inside the included file, empty name) must be a reported parse error with no exit/abort, an empty include stack and all streams closed afterwards, followed by a good include that must work; histories of 1..12 failing includes are followed by the include tree in a new context compared with a fresh process image.",
     "Splitting is at top-level item boundaries only. Expected lines come from the generator's own text (newlines counted once). Oracles with expectations first establish that the fault-free source is accepted silently.",
     "deterministic simulation: simulated file tree + failing-target injection + history/recovery probes, flat-vs-split differential oracle", "7/C13")
 
 chk("C17", "exploration",
-    "Seeded search over simulated file namespaces (regular file / directory / unreadable / absent at every candidate location, distinct marker per file), passwd databases (known and unknown users, effective uid with or without an entry) and search-path sequences (existing, missing, duplicated, tilde-prefixed directories); every result of cfg_searchpath, cfg_tilde_expand, cfg_parse and include() is compared with a 40-line reference resolver (first directory in add order holding a regular file; absolute bypass; tilde via passwd), results must be fresh blocks, top-level parse and include must pick the same file (marker), and the whole history must be identical under allocator fill bytes 0x00 / 0xA5 / 0xFF while the simulated getpwnam measures its argument under ASan.",
+    "Seeded search over simulated file namespaces (regular file / directory / unreadable / absent / symbolic link to any of these, to itself or to nowhere at every candidate location, distinct marker per file; names with a directory part; a directory name that makes the candidate longer than NAME_MAX; $HOME set to something else than the account's home), passwd databases (known and unknown users, effective uid with or without an entry) and search-path sequences (existing, missing, duplicated, tilde-prefixed directories); every result of cfg_searchpath, cfg_tilde_expand, cfg_parse and include() is compared with a 40-line reference resolver (first directory in add order holding a regular file; absolute bypass; tilde via passwd), results must be fresh blocks, top-level parse and include must pick the same file (marker), and the whole history must be identical under allocator fill bytes 0x00 / 0xA5 / 0xFF while the simulated getpwnam measures its argument under ASan.",
     "Trusts the reference resolver. Uninitialised-memory dependence is decided by the fill-byte differential and ASan, not MSan.",
     "deterministic simulation: simulated file namespace + passwd database, reference resolver model, fill-byte differential", "7/C17")
 
 chk("C04", "exploration",
-    "Seeded conversions through every route (parser scalar and list element, cfg_setopt, cfg_setmulti by name/by option) for int, float and bool options, each preceded by an injected ambient errno (0, ERANGE, EINVAL, ENOENT, EINTR, EBADF, 12345). Every plan is re-executed under other ambient errno values and with all process-global state scrubbed before each call: outcomes must be identical (the history/errno clause, which only a simulator-style harness reaches). Each outcome is also compared with exact reference models (128-bit integer model per radix, decimal float grammar + strtod value, boolean word table): accepted iff complete in-range numeral/word, exact value, rejection always with a diagnostic. Tokens: all strings of length <= 4 over a 14-symbol numeral alphabet (sampled quick, cycled completely thorough) plus 110 boundary tokens.",
-    "Reference models encode my reading of the statement; forms the statement is silent about (sign before 0x/0b, upper-case prefixes, inf/nan, hex floats, underflow) are explicit don't-cares.",
+    "Seeded conversions through every route (parser scalar and list element, cfg_setopt, cfg_setmulti by name/by option) for int, float and bool options, each preceded by an injected ambient errno (0, ERANGE, EINVAL, ENOENT, EINTR, EBADF, 12345). Every plan is re-executed under other ambient errno values and with all process-global state scrubbed before each call: outcomes must be identical (the history/errno clause, which only a simulator-style harness reaches). Each outcome is also compared with exact reference models (128-bit integer model per radix, decimal float grammar + strtod value, boolean word table): accepted iff complete in-range numeral/word, exact value, rejection always with a diagnostic. Tokens: all strings of length <= 4 over a 14-symbol numeral alphabet (sampled quick, cycled completely thorough) plus about 130 boundary tokens (range limits per radix, prefixes without digits, signs, every kind of white space strtol/strtod would skip in front and behind, underflow, prefixes and near-misses of the boolean words).",
+    "Reference models encode my reading of the statement; forms the statement is silent about (sign before 0x/0b, upper-case prefixes, inf/nan, hex floats) are explicit don't-cares; underflow to zero or a denormal is a must-reject (not a finite-range numeral).",
     "deterministic simulation: ambient-errno fault injection with differential oracles (O-errno, O-scrub) plus reference conversion models", "7/C04")
 
 chk("C09", "exploration",
-    "Seeded operation histories (3-30 calls: typed setters by name/by option with index, list set/append, bulk string set, titled-section add, remove by index/title/path, deliberately illegal calls) from the pristine state or a state produced by an accepted parse, for one or two interleaved clients, stepped in lock-step against a small executable abstract store (ordered value sequence per option, ordered title-keyed section sequence per section option): after every call the return value and the observable projection (sizes, values, titles in order, modified flags) must match the model; every client's outcomes must equal its solo run.",
+    "Seeded operation histories (3-30 calls: typed setters by name/by option with index, list set/append, bulk string set, titled-section add, remove by index/title/path - paths of one or several components with numeric, bare, quoted, escaped and malformed qualifiers, titles including the empty one and ones containing | ' = -, deliberately illegal calls) from the pristine state or a state produced by an accepted parse, for one or two interleaved clients, stepped in lock-step against a small executable abstract store (ordered value sequence per option, ordered title-keyed section sequence per section option): after every call the return value and the observable projection (sizes, values, titles in order, modified flags) must match the model; every client's outcomes must equal its solo run.",
     "Sequential refinement against a reference model over sampled histories; no fault is injected for this property (the scheduler contributes the two-client interleaving only). Rules the statement is silent about are explicit don't-cares listed in the evidence assumptions.",
     "deterministic simulation: seeded API histories checked by refinement against an executable reference model, two-client interleaving vs solo runs", "7/C09")
 
 chk("C10", "exploration",
-    "Seeded histories bring options into the state classes {pristine default, explicitly set, emptied, annotated, list of n, sections present}; then refusing calls are injected: bulk set with the unconvertible element at the first/middle/last position, by-name setter vetoed by a simulator pre-set validator (scalar and list), wrong-type setter, index beyond a scalar, duplicate title, removal of a missing index/title/path, unconvertible set-from-text on scalars and lists, section calls on value options, unknown name. Every refusing call must report failure and the whole context tree (values, order, annotation, reset/modified markers of every option) must be identical before and after.",
+    "Seeded histories bring options into the state classes {pristine default, explicitly set, emptied, annotated, list of n, sections present}; then refusing calls are injected: bulk set with the unconvertible element at the first/middle/last position, by-name setter vetoed by a simulator pre-set validator (scalar and list), wrong-type setter, index beyond a scalar, duplicate title, removal of a missing index/title/path (malformed indices, qualifiers on single sections, empty qualifiers, nested paths; whether the path really does not resolve is decided by the C09 store model on the configuration before the call), text refused by a value-parsing callback, unconvertible set-from-text on scalars and lists, section calls on value options, unknown name. Every refusing call must report failure and the whole context tree (values, order, annotation, reset/modified markers of every option) must be identical before and after.",
     "Sampling over (state class x refusal kind x position); the snapshot is taken through public getters and public flag bits.",
     "deterministic simulation: refusal injection (vetoing callback party, poisoned element at a chosen position, illegal request) with snapshot oracle", "7/C10")
 
@@ -68,18 +68,18 @@ chk("C05", "exploration",
     "deterministic simulation: save / process-restart / load injected at arbitrary points of seeded API+parse histories, round-trip oracle", "7/C05")
 
 chk("C06", "fault_enumeration",
-    "For a rendered valid text (any mix of comment styles, blank lines, multi-line strings; buffer/stream/file; in half of the runs spread over an include tree in the simulated file system) the generator knows file and extent of every token; for EVERY token of every file one run per applicable fault is executed: undeclared name, unconvertible value, wrong punctuation, premature end right before the token. A failed parse must return the parse-error code, deliver at least one diagnostic, and the context handed to the error function at the first diagnostic must name the damaged file and the line on which the offending token ends; an accepted parse must deliver no diagnostic.",
+    "For a rendered valid text (any mix of comment styles, blank lines, multi-line strings; buffer/stream/file; in half of the runs spread over an include tree in the simulated file system) the generator knows file and extent of every token; for EVERY token of every file one run per applicable fault is executed: undeclared name (also as the leaf of a path into a section), empty quoted name, unconvertible value, invalid escape raised by the scanner, wrong punctuation, premature end right before and inside the token, an included file ending inside a single-quoted string, an include target that cannot be opened (missing / unreadable / directory); with callbacks in the schema, for every invocation k the k-th one refuses through cfg_error(). A failed parse must return the parse-error code, deliver at least one diagnostic, and the context handed to the error function at the first diagnostic must name the damaged file and the line on which the offending token ends; an accepted parse must deliver no diagnostic.",
     "Complete over token positions per generated text; texts are sampled. Expected lines count newlines of the generator's own text once (no parser model). The schedule dimension is empty for this property.",
     "deterministic simulation: exhaustive per-token fault injection (wrong token / bad value / cut) in a simulated include tree with a line oracle from the generator's token map", "7/C06")
 
 chk("C14", "fault_enumeration",
-    "Callback parties are simulator functions whose verdicts come from the plan. For seeded schemas (value-parsing callbacks of all five kinds, validators, pre-set validators, function options) and rendered texts whose decoded values the generator knows by construction, the complete invocation trace of the fault-free parse is aligned with the text (once per value, input order, exact decoded bytes, exact decoded function arguments, validator after every stored value and seeing it through read-only re-entry); then for EVERY k the parse is repeated with the k-th invocation returning non-zero: it must fail, invoke nothing afterwards, and leave every top-level option other than the one under assignment exactly as after the items before the failing one (O-prefix). One plan in five vetoes / rewrites by-name setters through the pre-set validator.",
+    "Callback parties are simulator functions whose verdicts come from the plan. For seeded schemas (value-parsing callbacks of all five kinds, validators, pre-set validators, function options, options bound to application variables, annotation support on in half of the plans) and rendered texts whose decoded values the generator knows by construction, the complete invocation trace of the fault-free parse is aligned with the text (once per value, input order, exact decoded bytes, exact decoded function arguments, validator after every stored value and seeing it through read-only re-entry); then for EVERY k the parse is repeated with the k-th invocation returning non-zero: it must fail, invoke nothing afterwards, and leave every top-level option other than the one under assignment exactly as after the items before the failing one (O-prefix). One plan in five vetoes / rewrites by-name setters through the pre-set validator.",
     "Complete over k per text; texts sampled. Options with callbacks carry no parsed defaults. The extra validator call at a list's closing brace is accepted, not required.",
     "deterministic simulation: callback parties with exhaustive k-th-invocation failure injection, trace alignment and prefix-state oracle", "7/C14")
 
 chk("C16", "exploration",
-    "In every run the caller's declaration arrays and all strings in them are overwritten with 0xDD and freed right after cfg_init(), so any later read is an ASan use-after-free. Two contexts created from the same declarations are driven by two clients whose scripts (accepted parses, cleanly rejected parses, setters, annotations, callback registration by path, print, free + re-init) are interleaved by a seeded schedule; in a third of the runs the two parties are two instances of one multi section inside one context, followed by a third instance created late that must equal a pristine instance. After every step the party's outcome (return value, diagnostics, canonical dump, callback log / instance subtree) must equal its outcome in the solo run.",
-    "Sampling over schedules and scripts. Options bound to caller variables are excluded (sharing is their contract). errno is pinned and texts never end inside a string/comment so that C08/C04 mechanisms cannot fire.",
+    "In every run the caller's declaration arrays and all strings in them are overwritten with 0xDD and freed right after cfg_init(), so any later read is an ASan use-after-free. Two contexts created from the same declarations are driven by two clients whose scripts (accepted parses, cleanly rejected parses, texts the scanner gives up on in mid-string, setters, annotations, callback and print-filter registration, print, free + re-init) are interleaved by a seeded schedule; in a third of the runs the two parties are two instances of one multi section inside one context, followed by a third instance created late that must equal a pristine instance. After every step the party's outcome (return value, diagnostics, canonical dump, callback log / instance subtree) must equal its outcome in the solo run.",
+    "Sampling over schedules and scripts. Options bound to caller variables are excluded (sharing is their contract). errno is pinned so that the C04 mechanism cannot fire; include files are not part of these plans (process-wide include state is C08's and C13's).",
     "deterministic simulation: seeded two-party interleavings compared with solo runs, declaration memory poisoned and freed under ASan", "7/C16")
 
 PENDING = {}  # id -> reason (checks not built yet)
